@@ -77,31 +77,35 @@ Theorem label_document_roundtrip_partial_ascii : forall isprint ls,
 Proof. exact label_document_roundtrip_safe. Qed.
 Print Assumptions label_document_roundtrip_partial_ascii.
 
-(* (b) Every acknowledged sample has a successfully inserted series row for its day, in every
-   history of pushes (any streams, any insert outcomes) and cache resets: FALSE of the code as it is.
-   The triple (day, fingerprint, type) is marked as announced while parsing; if the series insert then
-   fails (5xx), the client's retry finds it cached, sends no series row and is acknowledged. *)
-Theorem acked_sample_is_indexed_refuted :
-  exists h, all_indexed (run init h) = false.
-Proof. exists w_retry. exact w_retry_not_indexed. Qed.
-Print Assumptions acked_sample_is_indexed_refuted.
+(* (b) Every acknowledged sample has a successfully inserted series row of its own day AND sample type
+   (the read side selects series rows with type IN (t, 0)), in EVERY history: any streams and mixtures of
+   log lines and metric values, any outcomes of the series and the samples insert of every push, client
+   retries, bodies that turn out malformed after some streams (400), cache resets at any point, and pushes
+   that overlap (Begin parses a body against the cache as it is; End k completes the k-th request in flight).
+   No guard. Holds of the code after the fix recorded in findings.d/C04.txt: the cache is only read while
+   parsing and written by ConfirmSeries after every insert of the request has succeeded.
+   Invariant: cache is covered by the inserted rows; every sample in flight is covered by the inserted rows
+   or by the rows its own request carries. *)
+Theorem acked_sample_is_indexed : forall h, all_indexed_typed (run init h) = true.
+Proof. exact acked_indexed_typed_all. Qed.
+Print Assumptions acked_sample_is_indexed.
 
-(* ... and true of every history in which, after a push whose series insert failed, nothing is
-   pushed before the next cache reset (any number of series, days, retries, sample-insert failures). *)
-Theorem acked_sample_is_indexed_partial : forall h,
-  clean_hist false h = true -> all_indexed (run init h) = true.
-Proof. exact acked_indexed_clean. Qed.
-Print Assumptions acked_sample_is_indexed_partial.
+(* the day-only form of the same statement (the form of the property text) *)
+Theorem acked_sample_is_indexed_by_day : forall h, all_indexed (run init h) = true.
+Proof. exact acked_indexed_all. Qed.
+Print Assumptions acked_sample_is_indexed_by_day.
 
-(* The read side selects series rows by sample type (type IN (t, 0)). Under the same guard every
-   acknowledged sample has an inserted row of its own day AND type, whatever mixture of log lines
-   and metric values a label set arrives with (the announcement cache is keyed per type since the
-   fix recorded in findings.d/C04.txt; before it [Push L log; Push L metric] left the metric sample
-   without a type-2 row). *)
-Theorem acked_sample_is_indexed_typed : forall h,
-  clean_hist false h = true -> all_indexed_typed (run init h) = true.
-Proof. exact acked_indexed_typed_clean. Qed.
-Print Assumptions acked_sample_is_indexed_typed.
+(* why a cache hit may be trusted: whatever the cache holds has been inserted, at every point of every history *)
+Theorem announcement_cache_is_covered : forall h, incl (cache (run init h)) (ts_rows (run init h)).
+Proof. exact cache_covered. Qed.
+Print Assumptions announcement_cache_is_covered.
+
+(* What was wrong (run_old = the entry made at parse time): a failed series insert, or a body malformed
+   after its first stream, followed by a retry left an acknowledged sample without series row. *)
+Theorem acked_sample_is_indexed_refuted_before_fix :
+  all_indexed (run_old init w_retry) = false /\ all_indexed (run_old init w_badbody) = false.
+Proof. exact (conj w_retry_old_not_indexed w_badbody_old_not_indexed). Qed.
+Print Assumptions acked_sample_is_indexed_refuted_before_fix.
 
 (* The cache of the running process is a set of BYTE keys: serializer (CH64 (day, fingerprint, type)).
    The obligation on the serializer the cache is constructed with - different 64-bit keys, different
@@ -113,13 +117,15 @@ Print Assumptions cache_key_injective.
 
 (* ... and it is what makes the triple-keyed cache of SeriesIndex.v the right abstraction: for every
    key hash and serializer whose composition is injective on announcements (the hash part is a
-   collision-freeness hypothesis on CH64, not established), the parser over the byte-keyed cache
-   emits exactly the series rows of the model parser. (CacheKeyProofs.truncating_serializer_swallows:
+   collision-freeness hypothesis on CH64, not established), the parser that reads the byte-keyed cache
+   and remembers its own rows as triples emits exactly the series rows of the model parser, and
+   ConfirmSeries on the byte keys is the model's cache update. (CacheKeyProofs.truncating_serializer_swallows:
    with a serializer that keeps 32 bits the second of two colliding series gets no row.) *)
 Theorem announcement_cache_refines : forall key ser,
   (forall x y, ck key ser x = ck key ser y -> x = y) ->
-  forall c ss, snd (k_parse key ser (map (ck key ser) c) ss) = snd (parse c ss).
-Proof. exact k_parse_rows. Qed.
+  forall c ss, snd (k_parse key ser (map (ck key ser) c) ss) = snd (parse c ss) /\
+               k_confirm key ser (map (ck key ser) c) (snd (parse c ss)) = map (ck key ser) (snd (parse c ss) ++ c).
+Proof. exact k_refines. Qed.
 Print Assumptions announcement_cache_refines.
 
 (* (c) The series row of a sample is stored under a day the reader's lower date bound
